@@ -254,11 +254,20 @@ class IcaseComponent(Component):
             b = gen.recase(rng, a[i:rng.randint(i, len(a))], 1.0)
         else:
             b = "".join(rng.choice(alph) for _ in range(rng.randint(0, n)))
+        if not params.get("alphabet") and rng.random() < 0.06:
+            # objects that did not come from the constructor in this process: unpickled from another interpreter
+            # process (different hash seed), pickled and unpickled here, deep-copied
+            import implrun
+            via = rng.choice(["xproc", "xproc", "pickle", "deepcopy"])
+            if via == "xproc":
+                a = rng.choice(implrun.XPROC_POOL)
+                b = gen.recase(rng, a, 1.0) if rng.random() < 0.7 else rng.choice(implrun.XPROC_POOL)
+            return {"a": a, "b": b, "via": via}
         return {"a": a, "b": b}
 
     def run(self, case):
         import implrun
-        impl = implrun.run_icase(case["a"], case["b"])
+        impl = implrun.run_icase(case["a"], case["b"], case.get("via", "direct"))
         if case.get("beyond"):
             return ["", ""], impl                      # the model is not consulted
         return [case["a"], case["b"]], impl
@@ -298,6 +307,12 @@ class BagComponent(Component):
             keys = ["it's", 'say "hi"', "both'\"", "back\\slash", "tab\there", "nl\n", "\x85", "\u00e9t\u00e9",
                     "soft\xadhyphen", "del\x7f", "nb\xa0sp", "cr\r", ""]
         vals = params.get("vals") or [[0, "U"], [0, "D"], [1, "U"], [1, "S"], [2, "D"]]
+        plain = "vals" not in params and rng.random() < 0.12
+        if plain:
+            # entries that are plain numbers, equal across types (1 == True == 1.0): the record class is generic,
+            # and "the same multiset" is meant under ==.  [value, type tag]; the model sees the value only.
+            vals = [[0, "int"], [0, "bool"], [0, "float"], [1, "int"], [1, "bool"], [1, "float"], [2, "int"], [2, "float"],
+                    [3, "int"]]
 
         def rec():
             ks = rng.sample(keys, rng.randint(0, params.get("maxunits", 4)))
@@ -316,17 +331,23 @@ class BagComponent(Component):
             b[k][1] = b[k][1] + [list(rng.choice(vals))] if rng.random() < 0.5 else b[k][1][:-1]
         else:
             b = rec()
-        return {"a": a, "b": b}
+        if plain and a and rng.random() < 0.5:
+            # the same numbers under other types, in another order: equal records
+            b = [[k, rng.sample([[v, rng.choice(["int", "float"] + (["bool"] if v < 2 else []))] for v, _ in es], len(es))]
+                 for k, es in a]
+        return {"a": a, "b": b, **({"plain": True} if plain else {})}
 
     def run(self, case):
         import implrun
-        impl = implrun.run_bag(case["a"], case["b"])
-        enc = lambda r: [[k, [[i, Sym(l)] for i, l in es]] for k, es in r]
+        impl = implrun.run_bag(case["a"], case["b"], plain=case.get("plain", False))
+        enc = lambda r: [[k, [[i, Sym("U" if case.get("plain") else l)] for i, l in es]] for k, es in r]
         return [enc(case["a"]), enc(case["b"])], impl
 
     def judge(self, case, impl, res):
         m = jsonable(res["model"][0])
         i = [int(impl[0]), impl[1], impl[2]]
+        if case.get("plain"):          # repr shows the type (True / 1 / 1.0): only == and len are compared
+            m, i = m[:2], i[:2]
         return std_report(case, m == i, m, i, {}, tags=[f"eq:{int(impl[0])}", f"len:{impl[1]}"],
                           nontrivial=any(es for _, es in case["a"]) and any(es for _, es in case["b"]))
 
@@ -485,12 +506,18 @@ class IsaComponent(Component):
                 rng.choice(["FOO", "FOO"] + gen.SPECIAL_TOKENS)
             srcs = sorted({f"R{rng.randint(0, 4)}" for _ in range(rng.randint(0, 3))})
             prog.append([srcs, f"R{rng.randint(0, 4)}", name, k + 1 + rng.randint(0, 2)])
-        return {"spec": spec, "caps": caps, "prog": prog,
+        case = {"spec": spec, "caps": caps, "prog": prog,
                 "form": rng.choice(["list", "list", "tuple", "items", "generator", "zip"])}
+        if len({c.lower() for c in caps}) == len(caps) and rng.random() < 0.3:
+            # the ability set in the form get_abilities returns, after the same table was loaded against a
+            # differently spelled twin of it that is still alive (hidden state keyed by equal-but-different keys)
+            case["form"] = "frozenset"
+            case["twin"] = [gen.recase(rng, c, 1.0) for c in caps]
+        return case
 
     def run(self, case):
         import implrun
-        impl = implrun.run_isa(case["spec"], case["caps"], case["prog"], case.get("form", "list"))
+        impl = implrun.run_isa(case["spec"], case["caps"], case["prog"], case.get("form", "list"), case.get("twin"))
         return [case["spec"], case["caps"], case["prog"]], impl
 
     def judge(self, case, impl, res):
